@@ -327,6 +327,9 @@ class Interp:
             if z3.is_app(t) and t.decl().name() == "none":
                 return z3.BoolVal(False)
             sized = self.sized_ref_truthy(st, t)
+            if v.hint and not v.hint.startswith("$") and v.hint not in ("builtins.str", "builtins.bytes", "builtins.int", "builtins.bool", "builtins.float"):
+                # a value of declared class (or None): no number / string cases in the formula
+                return z3.simplify(z3.If(is_none(t), False, sized))
             return z3.simplify(z3.If(is_none(t), False,
                    z3.If(is_bool(t), get_b(t),
                    z3.If(is_int(t), get_i(t) != 0,
